@@ -19,7 +19,7 @@ META = {
                         "symbolic x: N<=5 (alpha 1), N=4 (alpha 2); kernel on lattice grids N<=8 alpha 1..3; symbolic "
                         "alpha>0 (uninterpreted pow + axioms) N=5",
                "thorough": "API: N in {5,6,7,9}, alpha in {1,2,3,1/2,3/2}, more gap patterns; kernel symbolic x N<=6"},
-    "outside": ["more samples than the bound (the property's ~10^3)", "float rounding (terms are exact reals)",
+    "outside": ["more samples than the bound (the property's ~10^3)", "float rounding (terms are exact reals)", "machine-integer overflow for integer-typed x (integer-typed y IS covered: N=5 configurations)",
                 "spline smoothing (s != None) after matching", "symbolic x at API level (only at kernel level)", "kernel with symbolic x, N=5, alpha=2: the feasibility of a zero "
                 "denominator under the rectangle rule is not decided by z3/nlsat within 20 minutes (dropped from the thorough tier)"],
     "assumptions": ["precondition of the property: selected fixed points pairwise distinct with >= 1 interior sample; "
